@@ -15,6 +15,7 @@ import Aegean.Model.C14
 import Aegean.Proofs.C14
 
 set_option linter.unusedTactic false
+set_option linter.unusedSimpArgs false
 set_option linter.unreachableTactic false
 
 namespace Aegean.Properties.C14
@@ -45,10 +46,13 @@ theorem gauss_eq (x y amp xo yo sx sy theta : ℝ) :
     Gen.C14.gauss x y amp xo yo sx sy theta
       = amp * Real.exp (-(quad (x - xo) (y - yo) sx sy theta) / 2) := by
   simp only [Gen.C14.gauss, quad, cs, sn, R.real_radians, R.real_sin, R.real_cos, R.real_exp,
-    R.real_npow, R.real_ofNat]
+    R.real_npow, R.real_ofNat, R.real_ofSci]
+  have h5 : (OfScientific.ofScientific 5 true 1 : ℝ) = 1 / 2 := by norm_num
+  try simp only [h5]
+  have key : ∀ a b : ℝ, a = b → amp * Real.exp a = amp * Real.exp b := fun a b h => by rw [h]
   first
-    | (congr 1; congr 1; push_cast; ring)
-    | (rw [mul_comm]; congr 1; congr 1; push_cast; ring)
+    | (apply key; push_cast; ring)
+    | (rw [mul_comm (Real.exp _) amp]; apply key; push_cast; ring)
 
 theorem xoff_eq (sx sy theta : ℝ) :
     Gen.C14.xoff sx sy theta = 5 * (|sx * cs theta| + |sy * sn theta|) := by
